@@ -746,3 +746,104 @@ func (t *Term) str(d int) string {
 	}
 	return s + ")"
 }
+
+// Orient returns a sign-canonical form of an integer term: Orient(t) and Orient(-t) yield the same canonical
+// term (with opposite flags), whichever way the negation was built (a negated sum, a sum of negated terms, a
+// product with a negative constant, a choice between u and -u). t equals canon when neg is false, -canon otherwise.
+// It is what lets |t| and |-t| be one and the same term, so that the Euclid witnesses of a division are shared
+// between a computation and the same computation on negated inputs.
+func (c *Ctx) Orient(t *Term) (canon *Term, neg bool) {
+	if t.Sort != SInt {
+		return t, false
+	}
+	switch t.Op {
+	case OConst:
+		if t.I.Sign() < 0 {
+			return c.Int(new(big.Int).Neg(t.I)), true
+		}
+		return t, false
+	case ONeg:
+		cu, nu := c.Orient(t.Args[0])
+		return cu, !nu
+	case OMul:
+		ca, na := c.Orient(t.Args[0])
+		cb, nb := c.Orient(t.Args[1])
+		return c.Mul(ca, cb), na != nb
+	case OAdd:
+		type oa struct {
+			c *Term
+			n bool
+		}
+		parts := make([]oa, len(t.Args))
+		pivot := -1
+		for k, a := range t.Args {
+			ca, na := c.Orient(a)
+			parts[k] = oa{ca, na}
+			if ca.Op == OConst {
+				continue // constants are not used as pivot
+			}
+			if pivot < 0 || ca.ID < parts[pivot].c.ID {
+				pivot = k
+			}
+		}
+		if pivot < 0 {
+			return t, false
+		}
+		flip := parts[pivot].n
+		args := make([]*Term, len(parts))
+		for k, p := range parts {
+			if p.n != flip {
+				args[k] = c.Neg(p.c)
+			} else {
+				args[k] = p.c
+			}
+		}
+		return c.Add(args...), flip
+	case OIte:
+		// a choice between u and -u: canonical up to sign only when both branches have the same canonical form
+		ca, na := c.Orient(t.Args[1])
+		cb, nb := c.Orient(t.Args[2])
+		if ca == cb {
+			if na == nb {
+				return ca, na
+			}
+			// value is ±ca depending on the condition: keep the term itself but with a fixed orientation
+			cond := t.Args[0]
+			if na { // t = cond ? -ca : ca  (already the orientation we keep)
+				return t, false
+			}
+			// t = cond ? ca : -ca  = -(cond ? -ca : ca)
+			return c.Ite(cond, c.Neg(ca), ca), true
+		}
+	}
+	return t, false
+}
+
+// Abs builds |t| so that Abs(t) and Abs(-t) are the identical term.
+func (c *Ctx) Abs(t *Term) *Term {
+	if t.Sort != SInt {
+		return c.Ite(c.Le(c.Real(new(big.Rat)), t), t, c.Neg(t))
+	}
+	if t.Lo != nil && t.Lo.Sign() >= 0 {
+		return t
+	}
+	if t.Hi != nil && t.Hi.Sign() <= 0 {
+		return c.Neg(t)
+	}
+	cn, _ := c.Orient(t)
+	// |cond ? -u : u| = |u|
+	if cn.Op == OIte {
+		ca, _ := c.Orient(cn.Args[1])
+		cb, _ := c.Orient(cn.Args[2])
+		if ca == cb {
+			return c.Abs(ca)
+		}
+	}
+	if cn.Lo != nil && cn.Lo.Sign() >= 0 {
+		return cn
+	}
+	if cn.Hi != nil && cn.Hi.Sign() <= 0 {
+		return c.Neg(cn)
+	}
+	return c.Ite(c.Le(c.Int64(0), cn), cn, c.Neg(cn))
+}
